@@ -27,6 +27,7 @@ from bisect import bisect_left
 from fractions import Fraction as Fr
 import numpy as np
 from .. import common
+from ..translator import py2lean
 from ..common import enc, ask, HarnessError
 from .. import corethm
 
@@ -294,7 +295,10 @@ def vals_of(pl):
                       num_steps=pl.num_steps).values
         except Exception:
             v = np.zeros((0, 0))
-    return np.asarray(v, dtype=float).tolist()
+    try:
+        return np.asarray(v, dtype=float).tolist()
+    except (TypeError, ValueError):
+        return np.asarray(v).tolist()          # a non-numeric placeholder array (the pre-357d745 code): kept as it is
 
 
 def grid_of(pl):
@@ -1551,7 +1555,18 @@ CORPUS = [
 ]
 
 
+# source translator (DESIGN.md 3.2): part of the model is regenerated from the source text on every run
+TRUSTED = list(TRUSTED) + [py2lean.trusted_note("plarith")]
+PROP_FILES = ["PersimVerif/Props/C09.lean"] + py2lean.prop_files("plarith")
+
+
+def pre_build(ctx):
+    """source translator: regenerate Generated/Src*.lean from PERSIM_ROOT's source"""
+    py2lean.pre_build(ctx, ("plarith",))
+
+
 def run(ctx):
+    py2lean.report_broken(ctx, PROP_FILES)
     r = ctx.rng
     corethm.record(ctx, CORE_THEOREMS, ["PersimVerif/Props/C09.lean"])
     ctx.extra["anchored_digest"] = _digest()
@@ -1723,3 +1738,4 @@ MANIFEST = {
             "Regression: /repo 9ea345a (zero-width segments) has the theorem old_posToSlope_counterexample and a corpus case.",
     "technique": "Lean 4 theorems over a hand-written model + differential correspondence on operation histories",
 }
+MANIFEST["note"] += " " + py2lean.manifest_note("plarith")
